@@ -824,7 +824,7 @@ def fam_async_placements(tier: str, rng: random.Random) -> Iterator[dict]:
     for owner_async in (False, True):
         for kind in ("func", "method"):
             for role in ("pre", "post"):
-                for rv in ("bool", "corofn", "coro") + (("future",) if owner_async else ()):
+                for rv in ("bool", "corofn", "coro") + (("future", "futureraise") if owner_async else ()):
                     for truth in (True, False):
                         for form in ("default", "factory", "inst"):
                             if rv != "bool" and form == "default" and not truth and owner_async:
@@ -839,6 +839,15 @@ def fam_async_placements(tier: str, rng: random.Random) -> Iterator[dict]:
                 p = member_prog(kind, False, [], 1, 1, [], [True], ["default"], False, owner_async, tag="async-cap")
                 assert p is not None
                 p["snp"][0]["rv"] = rv
+                yield p
+            # two or three snapshots of different flavours: they are captured in the order of their declaration
+            for rvs in itertools.product(("bool", "corofn", "coro"), repeat=2):
+                if not owner_async and "corofn" in rvs:
+                    continue
+                p = member_prog(kind, False, [], 1, 2, [], [True], ["default"], False, owner_async, tag="async-cap2")
+                assert p is not None
+                for snp, rv in zip(p["snp"], rvs):
+                    snp["rv"] = rv
                 yield p
 
 
